@@ -99,6 +99,69 @@ fn check(p: &synth::Prog, detectors: &[Detector], tier: Tier) -> Out {
             }
         }
     }
+    // layouts that are extreme in one respect (only for detectors that flag something in this program): a first line of 66 000
+    // blanks, a first line that is a 70 000-byte comment, a comment line holding NEL / LINE SEPARATOR / PARAGRAPH SEPARATOR / a lone
+    // CR, and a vertical tab or form feed directly after every line feed that follows the first `;` (the lexer reads a pragma's
+    // value as raw text)
+    if flagged.iter().any(|f| f.as_ref().map(|s| !s.is_empty()).unwrap_or(false)) {
+        let (l1t, l1o) = synth::render_l1(&p.toks);
+        let mut variants: Vec<(String, String, Vec<usize>)> = Vec::new();
+        for (label, prefix) in [
+            ("66000 blanks on the first line", format!("{}\n", " ".repeat(66_000))),
+            ("a 70000-byte comment on the first line", format!("/* {} */\n", "x".repeat(70_000))),
+            ("a comment with NEL, LS, PS and a lone CR on the first line", "/* \u{85} \u{2028} \u{2029} \r */\n".to_string()),
+        ] {
+            variants.push((label.to_string(), format!("{}{}", prefix, l1t), l1o.iter().map(|o| o + prefix.len()).collect()));
+        }
+        for (label, ws) in [("a vertical tab after every line feed", "\u{b}"), ("a form feed after every line feed", "\u{c}")] {
+            let mut text = String::new();
+            let mut offs = Vec::new();
+            let mut past_directive = p.toks.first().map(|t| t != "pragma" && t != "import").unwrap_or(true);
+            for tk in &p.toks {
+                if past_directive {
+                    text.push_str(ws);
+                }
+                offs.push(text.len());
+                text.push_str(tk);
+                text.push('\n');
+                if tk == ";" || tk == "}" {
+                    past_directive = true;
+                }
+                if tk == "pragma" || tk == "import" {
+                    past_directive = false;
+                }
+            }
+            variants.push((label.to_string(), text, offs));
+        }
+        for (label, text, offs) in variants {
+            out.layouts += 1;
+            if solang_parser::parse(&text, 0).is_err() {
+                out.violations.push(Violation { site: "MACHINERY:layout-does-not-parse".into(), input: text.chars().take(300).collect(), expected: "parses".into(), observed: label.clone(), size: n, unit_test: String::new(), extra: json!({}) });
+                continue;
+            }
+            out.parsed_ok += 1;
+            for (di, d) in detectors.iter().enumerate() {
+                let f = match &flagged[di] {
+                    Some(f) if !f.is_empty() => f,
+                    _ => continue,
+                };
+                let want: BTreeSet<i32> = f.iter().map(|&t| layout::line_of(&text, offs[t])).collect();
+                out.calls += 1;
+                let got = dets::run_guarded(d, &text, 0);
+                if got.as_ref().ok() != Some(&want) {
+                    out.violations.push(Violation {
+                        site: format!("{}:extreme-layout", d.name),
+                        input: format!("[{}] {}", label, text.chars().filter(|c| *c != 'x' && *c != ' ').take(400).collect::<String>()),
+                        expected: format!("lines {:?} (flagged tokens {:?} of the one-token-per-line layout, moved with the layout '{}')", want, f, label),
+                        observed: format!("{:?}", got),
+                        size: n * 1000 + 999,
+                        unit_test: String::new(),
+                        extra: json!({"tag": p.tag, "layout": label, "tokens": p.toks}),
+                    });
+                }
+            }
+        }
+    }
     out
 }
 
